@@ -67,7 +67,7 @@ def run(ctx):
     # stream / streamer protocol at mutex granularity
     ctx.tlc_expect_ok("StreamProto", "StreamProto_base.cfg", timeout=900, deadlock=False,
                       overrides={"NEvents": "4"} if thorough else None, name="StreamProto/faithful")
-    for sw, prop in (("M_Recharge", "ChargedRight"), ("M_SignalOnPut", None)):
+    for sw, prop in (("M_Recharge", "ChargedRight"), ("M_SignalOnPut", None), ("M_UnblockOnlyIfEmpty", "NoEventLost")):
         r = ctx.tlc("StreamProto", "StreamProto_base.cfg", timeout=300, deadlock=False, overrides={sw: "FALSE"}, name="StreamProto/mutant-%s" % sw)
         if r.ok:
             raise vlib.Infra("spec mutant %s of StreamProto is not rejected: mechanism vacuous" % sw)
@@ -118,6 +118,8 @@ def run(ctx):
     ctx.classify(recs)
     ctx.sample(res[0])
     # 3. end-to-end progress on the real pipeline
+    win = core.window_scenarios(ctx, 24 if thorough else 8, 9000)
+    core.execute_and_validate(ctx, "C04", win, par=1)
     scen = progress_scenarios(ctx, 400 if thorough else 100, 1)
     for i in range(0, len(scen), 100):
         core.execute_and_validate(ctx, "C04", scen[i:i + 100], par=6)
